@@ -3,6 +3,7 @@
   Property theorems only.  All of them are over every byte string and both dialects.
 -/
 import G9Proofs.Lemmas.WireTotal
+import G9Proofs.Lemmas.WireReenc
 namespace G9.C02
 open G9 Go Spec
 
@@ -51,6 +52,65 @@ theorem unpack_ok_shape (dotu : Bool) (bs : Bytes) (tag : UInt16) (m : Msg) (n :
               · cases h
               · cases h
                 omega
+
+/-- What a successful decode returns: the type is the one in byte 4 and a defined message type,
+    the message already carries Go's defaults for what the dialect lacks, and all its fields —
+    fixed and variable-length — fit inside the packet: the protocol encoding of the decoded
+    fields is at most 4 bytes longer than the packet's body (4 only for a .u Tauth/Tattach that
+    came without the numeric uid). -/
+theorem unpack_ok_fields (dotu : Bool) (bs : Bytes) (tag : UInt16) (m : Msg) (n : Nat)
+    (h : Go.unpack dotu bs = .ok (tag, m, n)) :
+    m.code = (bs.drop 4).headD 0 ∧
+    ¬ (m.code.toNat < Generated.Tversion ∨ m.code.toNat ≥ Generated.Tlast) ∧
+    Go.norm dotu m = m ∧
+    7 + (Spec.body dotu m).length ≤ n + 4 ∧
+    (n + 4 < 4294967296 → Spec.RepW dotu m) := by
+  obtain ⟨hn, h7, hle, hb7⟩ := unpack_ok_shape dotu bs tag m n h
+  rw [unpack_eq dotu bs hb7] at h
+  split at h
+  · cases h
+  unfold unpackRest at h
+  split at h
+  · cases h
+  cases hm : minSize dotu ((bs.drop 4).headD 0) with
+  | panic => rw [hm] at h; cases h
+  | err e => rw [hm] at h; cases h
+  | ok sz =>
+    rw [hm] at h
+    simp only [Res.ok_bind] at h
+    split at h
+    · cases h
+    obtain ⟨⟨m', rest⟩, hb, h⟩ := Res.bind_ok h
+    dsimp only at h
+    split at h
+    · cases h
+    rename_i hrest
+    have hr : rest = [] := by
+      cases rest with
+      | nil => rfl
+      | cons a r => simp at hrest
+    subst hr
+    simp only [Res.pure_eq, Res.ok.injEq, Prod.mk.injEq] at h
+    obtain ⟨-, hmm, -⟩ := h
+    subst hmm
+    obtain ⟨c1, c2, c3, c4⟩ := unpackBody_inv dotu _ _ m' hb
+    have hl : ((bs.drop 7).take ((dec32 (bs.take 4)).toNat - 7)).length = n - 7 := by
+      simp only [List.length_take, List.length_drop]; omega
+    rw [hl] at c3
+    exact ⟨c1, code_range m', c2, by omega, fun hbig => c4 (by omega)⟩
+
+/-- Re-encoding the decoded fields gives a packet that decodes to the same fields (and the same
+    tag), consuming exactly that packet.  The hypothesis excludes only packets within 4 bytes
+    of 4 GiB, whose re-encoding (a numeric uid added to a Tauth/Tattach) could not carry its
+    own size in size[4]. -/
+theorem reencode_decodes_same (dotu : Bool) (bs : Bytes) (tag : UInt16) (m : Msg) (n : Nat)
+    (h : Go.unpack dotu bs = .ok (tag, m, n)) (hbig : n + 4 < 4294967296) (rest : Bytes) :
+    Go.unpack dotu (Spec.encode dotu tag m ++ rest) =
+      .ok (tag, m, (Spec.encode dotu tag m).length) := by
+  obtain ⟨_, _, hnorm, _, hrep⟩ := unpack_ok_fields dotu bs tag m n h
+  have := unpack_encode' dotu tag m rest (hrep hbig)
+  rw [hnorm] at this
+  exact this
 
 /-- The result — message or error — does not depend on bytes beyond the declared size. -/
 theorem unpack_prefix_indep (dotu : Bool) (bs : Bytes)
@@ -138,5 +198,10 @@ example : Go.unpack false [7, 0, 0, 0, 120, 1, 0] = .err .szerror := by decide
 
 /-- and a well-formed one decodes -/
 example : Go.unpack false [11, 0, 0, 0, 120, 1, 0, 5, 0, 0, 0] = .ok (1, .tclunk 5, 11) := by decide
+
+/-- a .u Tauth without the numeric uid decodes, and its re-encoding is 4 bytes longer -/
+example : Go.unpack true [19, 0, 0, 0, 102, 1, 0, 9, 0, 0, 0, 4, 0, 97, 98, 99, 100, 0, 0]
+    = .ok (1, .tauth 9 [97, 98, 99, 100] [] NOUID, 19) := by decide
+example : (Spec.encode true 1 (.tauth 9 [97, 98, 99, 100] [] NOUID)).length = 23 := by decide
 
 end G9.C02
